@@ -22,7 +22,8 @@ done
 for d in harmless/C*/[0-9] harmless/self/*; do
   if [ $((k % n)) -eq $i ]; then
     p=$(basename $(dirname $d))
-    /venv/bin/python harness/harmless_eval.py $p $d $p 2>&1 | tail -1 >> $V/harmless/summary.$i.txt
+    checks=$p; [ "$p" = "self" ] && checks="$(cat harness/manifest/ENABLED | tr '\n' ' ')"
+    /venv/bin/python harness/harmless_eval.py $p $d $checks 2>&1 | tail -1 >> $V/harmless/summary.$i.txt
   fi
   k=$((k+1))
 done
